@@ -81,7 +81,7 @@ def run_rounds(vlib, binary, lines):
 def gen_lines(rng, tier, boost=False):
     lines = []
     if tier == "quick" and not boost:
-        plan = [(2, 12, 120), (4, 12, 120), (8, 8, 120)]
+        plan = [(2, 40, 200), (4, 40, 200), (8, 24, 200)]
     else:
         plan = [(2, 120, 300), (4, 120, 300), (8, 120, 300)]
     for T, rounds, nops in plan:
@@ -155,7 +155,17 @@ def run(ctx, vlib):
     boost = (not ctx.get("proofs_ok", True)) or bool(offenders)
     corpus = IC.load_corpus("C19")
     lines = corpus + gen_lines(rng, ctx["tier"], boost)
-    res = run_rounds(vlib, binary, lines)
+    # in batches, so that a tree on which every round races does not cost the whole volume
+    res = []
+    bad = 0
+    batch = 3 * vlib.NCPU
+    for i in range(0, len(lines), batch):
+        part = run_rounds(vlib, binary, lines[i:i + batch])
+        res += part
+        bad += sum(1 for _, o, _ in part if not o.startswith("OK "))
+        if bad >= 3:
+            notes.append("stopped after %d of %d rounds: %d failing rounds found" % (len(res), len(lines), bad))
+            break
     classes = {}
     ops_total = 0
     seen = set()
@@ -170,7 +180,7 @@ def run(ctx, vlib):
         why = ("ThreadSanitizer reported a race between threads that share only constants" if o.startswith("RACE")
                else "a thread's results under concurrency differ from its sequential run" if o.startswith("MISMATCH")
                else "the concurrent run did not complete")
-        if len(failing) < 10:
+        if len(failing) < 3:
             rec = dict(driver="threads", case=l, implementation=o, expected="OK <T> <ops> <hash> (no race, results equal to the sequential golden run)",
                        judge="FAIL", why=why, tsan_report=detail[:4000])
             if offenders:
